@@ -906,6 +906,17 @@ func (r *vecRun) randomHistory(steps int) error {
 				id = nextFresh
 				nextFresh++
 			}
+			// removed ids that are still resident (not flushed yet): re-adding one of them, well-formed or not, is the delicate case
+			tomb := []int{}
+			for t := range r.resident {
+				if _, isLive := r.live[t]; !isLive {
+					tomb = append(tomb, t)
+				}
+			}
+			sort.Ints(tomb)
+			if len(tomb) > 0 && rng.Intn(4) == 0 {
+				id = tomb[rng.Intn(len(tomb))]
+			}
 			op := vop{A: "add", ID: id, V: 1 + rng.Intn(e.NV)}
 			if _, isLive := r.live[id]; r.resident[id] && !isLive && rng.Intn(3) == 0 { // a malformed re-add of a removed id
 				op.Bad = "dim"
@@ -919,6 +930,11 @@ func (r *vecRun) randomHistory(steps int) error {
 			}
 			if err := r.exec(op); err != nil {
 				return err
+			}
+			if op.Bad != "" { // what a rejected add left behind is looked at right away
+				if err := r.exec(vop{A: "search", Q: []int{1 + rng.Intn(e.NQ)}, K: -1, P: -1}); err != nil {
+					return err
+				}
 			}
 		case x < 10: // remove (sometimes an unknown or already removed id)
 			id := 1 + rng.Intn(12)
